@@ -175,6 +175,57 @@ def script_rebind(first, second, extra, with_servo):
     return "\n".join(lines) + "\n"
 
 
+LCD_ARGS = {"P": ["rs=12, en=11, d4=5, d5=4, d6=3, d7=2", "22, 23, 24, 25, 26, 27, cols=20, rows=4", "rs=30, en=31, d4=32, d5=33, d6=34, d7=35, rw=36, backlight_pin=44"],
+            "I": ["i2c_addr=0x27", "i2c_addr=0x3F, cols=20, rows=4", "cols=16, rows=2, i2c_addr=38"]}
+BIND_ALPHABET = [("a", "P"), ("a", "I"), ("b", "P"), ("b", "I")]
+
+
+def script_bindings(seq, rot, others, with_servo, has_loop):
+    """LCD variables bound (and bound again) before the main loop: seq = [(variable, "P"|"I"), ...] in textual order,
+    every binding followed by a command on the variable; the last bindings are used again in the loop body.
+    This is the region the repaired finding F-C14-lcd-rebind used to exclude (plus same-interface re-bindings)."""
+    lines = [IMPORTS.rstrip("\n")]
+    if others:
+        lines += OTHER_DECL
+    if with_servo:
+        lines += [SERVO_DECL[0]]
+    for k, (var, kind) in enumerate(seq):
+        lines += [f"{var} = LCD({LCD_ARGS[kind][(rot + k) % 3]})", f'{var}.write(0, {k % 2}, "{kind}{k}")']
+    last = [f'{var}.write(1, 0, "L")' for var in dict.fromkeys(v for v, _ in seq)]
+    if with_servo:
+        last += [SERVO_USE[0]]
+    if has_loop:
+        lines += ["while True:"] + ind(last + (OTHER_LOOP if others else []) + ["sleep(20)"])
+    else:
+        lines += last + ["sleep(20)"]
+    return "\n".join(lines) + "\n"
+
+
+def binding_sequences(tier, rng):
+    """sequences over {a, b} x {parallel, I2C} that bind some variable at least twice (first variable: a)"""
+    import itertools
+    out = []
+    for n in (2, 3, 4):
+        seqs = [list(q) for q in itertools.product(BIND_ALPHABET, repeat=n)
+                if q[0][0] == "a" and len({v for v, _ in q}) < n]
+        if tier != "thorough":
+            if n == 3:
+                seqs = seqs[::2]
+            if n == 4:
+                rng.shuffle(seqs)
+                seqs = seqs[:8]
+        out += seqs
+    return out
+
+
+def mixed(seq):
+    """some variable is bound to both interfaces (the formerly excluded region)"""
+    kinds = {}
+    for v, k in seq:
+        kinds.setdefault(v, set()).add(k)
+    return any(len(x) == 2 for x in kinds.values())
+
+
 def script_servo_rebind(where):
     lines = [IMPORTS.rstrip("\n"), "sv0 = Servo(9)", "sv0.write(1)"]
     if where == "pre":
@@ -211,6 +262,20 @@ def gen_cases(tier, rng):
             declared = {KIND_LIB[first]} | {KIND_LIB[g] for g in extra}
             cases.append({"src": script_rebind(first, first, extra, False), "cat": "in", "kind": "in:rebind-same-interface", "declared": declared,
                           "meta": {"first": first, "second": first, "extra": extra}})
+    # one LCD variable bound to both interfaces (the region the repaired finding F-C14-lcd-rebind used to exclude)
+    # and longer binding sequences over two variables: inside the quantifier
+    for first, second in (("P", "I"), ("I", "P")):
+        for extra in ("", "P", "I"):
+            for with_servo in (False, True):
+                cases.append({"src": script_rebind(first, second, extra, with_servo), "cat": "in", "kind": "in:lcd-rebind-other-interface",
+                              "declared": {"LiquidCrystal", "LiquidCrystal_I2C"} | ({"Servo"} if with_servo else set()), "rebind_mixed": True,
+                              "meta": {"first": first, "second": second, "extra": extra, "servo": with_servo}})
+    for k, seq in enumerate(binding_sequences(tier, rng)):
+        others, with_servo, has_loop = bool(k % 2), (k % 3 == 1), (k % 4 != 3)
+        cases.append({"src": script_bindings(seq, k, others, with_servo, has_loop), "cat": "in",
+                      "kind": "in:lcd-bindings:" + ("mixed" if mixed(seq) else "same-interface"),
+                      "declared": {KIND_LIB[g] for _, g in seq} | ({"Servo"} if with_servo else set()), "rebind_mixed": mixed(seq),
+                      "meta": {"seq": ["%s:%s" % vk for vk in seq], "rot": k % 3, "others": others, "servo": with_servo, "loop": has_loop}})
     for where in ("pre", "top"):
         cases.append({"src": script_servo_rebind(where), "cat": "in", "kind": "in:servo-rebind", "declared": {"Servo"}, "meta": {"where": where}})
 
@@ -236,12 +301,6 @@ def gen_cases(tier, rng):
     for kind in "SPI":
         for others in (False, True):
             out.append({"src": script_post(kind, others), "cat": "out", "kind": "out:after-loop", "declared": {KIND_LIB[kind]}, "meta": {"kind": kind, "others": others}})
-    for first, second in (("P", "I"), ("I", "P")):
-        for extra in ("", "P", "I"):
-            for with_servo in (False, True):
-                out.append({"src": script_rebind(first, second, extra, with_servo), "cat": "out", "kind": "out:lcd-rebind-other-interface",
-                            "declared": {"LiquidCrystal", "LiquidCrystal_I2C"} | ({"Servo"} if with_servo else set()),
-                            "meta": {"first": first, "second": second, "extra": extra, "servo": with_servo}})
     if tier != "thorough":
         # stratified: every multiplicity triple once (alternating others/mode), every boundary kind, a seeded rest
         ins = [c for c in cases if c["kind"].startswith("in:") and "s" in c["meta"]]
@@ -255,13 +314,14 @@ def gen_cases(tier, rng):
                 keep.append(c)
         rest = [c for c in ins if c not in keep]
         keep += rest[:30]
-        keep += [c for c in cases if "s" not in c["meta"]][::2]
+        keep += [c for c in cases if "s" not in c["meta"] and not c["kind"].startswith("in:lcd-")][::2]
+        keep += [c for c in cases if c["kind"] == "in:lcd-rebind-other-interface" and not (c["meta"]["extra"] and c["meta"]["servo"])]
+        keep += [c for c in cases if c["kind"].startswith("in:lcd-bindings:")]      # already subsampled by binding_sequences
         # outside the quantifier: every (kind, container, region) once without a documented twin (the twin
         # would mask a difference), every loop/after-loop/rebind shape once, plus a seeded rest
         keep_out = [c for c in out if c["kind"].startswith("out:nested:") and not c["meta"]["also_documented"]]
         keep_out += [c for c in out if c["kind"].startswith("out:loop-") and c["meta"]["n"] == 1 and not c["meta"]["extra"]]
         keep_out += [c for c in out if c["kind"] == "out:after-loop" and not c["meta"]["others"]]
-        keep_out += [c for c in out if c["kind"] == "out:lcd-rebind-other-interface" and not c["meta"]["extra"] and not c["meta"]["servo"]]
         rest_out = [c for c in out if c not in keep_out]
         rng.shuffle(rest_out)
         keep_out += rest_out[:12]
@@ -280,10 +340,25 @@ def read_cpp(cpp):
     return incs, objs
 
 
+LCD_ID_RE = re.compile(r"^__redu_lcd(\d*)_(\w+)$")
+
+
 def obj_var(cls, ident):
     """emitted object identifier -> script variable name"""
-    pre = "__servo_" if cls == "Servo" else "__redu_lcd_"
-    return ident[len(pre):] if ident.startswith(pre) else None
+    if cls == "Servo":
+        return ident[len("__servo_"):] if ident.startswith("__servo_") else None
+    m = LCD_ID_RE.match(ident)
+    return m.group(2) if m else None
+
+
+def obj_index(ident):
+    """binding index of an LCD object: __redu_lcd_<n> -> 0, __redu_lcd<k>_<n> -> k - 1 (k >= 2)"""
+    m = LCD_ID_RE.match(ident)
+    if not m:
+        return -1
+    if m.group(1) == "":
+        return 0
+    return int(m.group(1)) - 1 if int(m.group(1)) >= 2 and not m.group(1).startswith("0") else -1
 
 
 def libsec_entries(text):
@@ -344,15 +419,51 @@ def local_findings(ctx):
     if f.exists():
         for e in json.loads(f.read_text()):
             if e.get("property") == "C14":
-                items.setdefault(e["id"], e)
+                items[e["id"]] = e          # the package's own file is the source known_findings.json is assembled from
     return list(items.values())
 
 
+def replay_witness(f):
+    """run the witness of a known_findings entry through the real code and the property's oracle -> (case, result, failures)"""
+    w = f["witness"]
+    case = {"src": w["script"], "cat": "in", "kind": "finding", "declared": set(w["declared_devices_need"]), "meta": {}}
+    r = run_cases([case])[0]
+    probe = C.Ctx("C14", "quick", 0)
+    probe.findings = []
+    if r.get("ok"):
+        oracle(probe, case, r, None)
+    else:
+        probe.fail("witness script is rejected by the real parse/emit", {"script": case["src"]}, "accepted", r, key="rejected")
+    return case, r, probe.failures
+
+
+def replay_fixed(ctx, dist):
+    """the witnesses of the repaired findings: a fixed entry suppresses nothing - a witness that fails again is a
+    violation of the property (with the witness as replay), not a known finding.  Returns the ids that regressed."""
+    back = set()
+    for f in local_findings(ctx):
+        if f.get("kind") != "fixed":
+            continue
+        case, r, failures = replay_witness(f)
+        dist["fixed-witness:" + f["id"] + (":fails-again" if failures else ":holds")] += 1
+        if failures:
+            back.add(f["id"])
+            first = failures[0]
+            observed = {"lib_deps": r.get("libs"), "includes": read_cpp(r["cpp"])[0], "objects": read_cpp(r["cpp"])[1]} if r.get("ok") else r
+            ctx.fail(f"the repaired defect {f['id']} is back: {first['what']} ({f.get('fixed', '')})",
+                     {"kind": "fixed-witness", "finding": f["id"], "script": case["src"], "declared_devices_need": sorted(case["declared"]),
+                      "witness": f["witness"]},
+                     first["expected"], observed, key="fixed:" + f["id"])
+    return back
+
+
 def run(ctx: C.Ctx):
+    dist = Counter()
+    # ---- 0. the witnesses of the repaired findings (fixed entries suppress nothing)
+    regressed = replay_fixed(ctx, dist)
     cases = gen_cases(ctx.tier, ctx.rng)
     cases.sort(key=lambda c: (len(c["src"]), c["src"]))      # smallest scripts first: the first replay per class is the shortest
     res = run_cases(cases)
-    dist = Counter()
     nontrivial = set()
     n_eval = 0
 
@@ -400,7 +511,7 @@ def run(ctx: C.Ctx):
             i_req = [LIBS.index(x) if x in LIBS else -1 for x in r["libs"]]
             i_hdr = [HEADERS.index(h) for h in incs if h in HEADERS]
             i_sobj = [ids.get(obj_var(cl, ident), -1) for cl, ident in objs if cl == "Servo"]
-            i_lobj = [[1 if cl == "LiquidCrystal_I2C" else 0, ids.get(obj_var(cl, ident), -1)] for cl, ident in objs if cl != "Servo"]
+            i_lobj = [[1 if cl == "LiquidCrystal_I2C" else 0, ids.get(obj_var(cl, ident), -1), obj_index(ident)] for cl, ident in objs if cl != "Servo"]
             i_inst = [j for j, name in enumerate(LIBS) if any(cl == name for cl, _ in objs)]
             case_rep = {"script": c["src"], "skeleton": r["skeleton"]}
             if m_req != i_req:
@@ -415,6 +526,11 @@ def run(ctx: C.Ctx):
                 ctx.disagree("instantiated classes: model vs emit", case_rep, [LIBS[j] for j in m_inst], sorted({cl for cl, _ in objs}))
             dist["model_guard:" + str(m_guard)] += 1
             dist["model_agree:" + str(m_agree)] += 1
+            if m_guard == 1 and m_names == 0:
+                dist["inside_guard_in_region_formerly_excluded_by_F-C14-lcd-rebind"] += 1
+            if c["cat"] == "in" and c.get("rebind_mixed", False) != (m_names == 0):
+                ctx.disagree("generator's classification 'an LCD variable is bound to both interfaces' differs from the model's on the real IR", case_rep,
+                             {"names_consistent": m_names}, {"rebind_mixed": c.get("rebind_mixed", False)})
             if c["cat"] == "in" and m_guard != 1:
                 ctx.disagree("a script inside the quantifier is parsed to an IR outside the theorem's guard", case_rep,
                              {"guard": m_guard, "servos_documented": m_sdoc, "lcds_documented": m_ldoc, "names_consistent": m_names}, None)
@@ -423,7 +539,11 @@ def run(ctx: C.Ctx):
             if m_req or m_hdr:
                 nontrivial.add(json.dumps(r["skeleton"]))
         # ---------- property oracle (inside the quantifier only)
-        if c["cat"] == "in":
+        if c["cat"] == "in" and c.get("rebind_mixed") and "F-C14-lcd-rebind" in regressed:
+            # the repaired defect is back and already reported with its witness as replay: scripts of the same
+            # region (a variable bound to both interfaces) are counted, not reported a second time
+            dist["skipped:oracle on rebind-mixed scripts (F-C14-lcd-rebind is back)"] += 1
+        elif c["cat"] == "in":
             n_eval += 1
             oracle(ctx, c, r, compiled.get(k))
         else:
@@ -433,37 +553,34 @@ def run(ctx: C.Ctx):
             oracle(probe, c, r, None)
             observed[c["kind"].split(":")[1] + (":" + c["meta"]["kind"] if "kind" in c["meta"] else "")]["holds" if not probe.failures else "fails"] += 1
 
-    # ---- known findings: replay every listed witness on the real code
+    # ---- known findings still open (none at present): replay every listed witness on the real code
     for f in local_findings(ctx):
         if f.get("kind") == "fixed":
-            continue
-        w = f["witness"]
-        case = {"src": w["script"], "cat": "in", "kind": "finding", "declared": set(w["declared_devices_need"]), "meta": {}}
-        r = run_cases([case])[0]
-        probe = C.Ctx("C14", ctx.tier, ctx.seed)
-        probe.findings = []
-        if r.get("ok"):
-            oracle(probe, case, r, None)
-        if probe.failures:
+            continue            # replayed in step 0
+        _, _, failures = replay_witness(f)
+        if failures:
             ctx.known(f"{f['id']}: {f['what']}")
 
     n_in = sum(1 for c in cases if c["cat"] == "in")
     ctx.coverage.update({
         "evaluations": n_eval,
         "distinct_nontrivial": len(nontrivial),
-        "rule": "scripts enumerated exhaustively: multiplicities 0..3 of Servo x parallel LCD x I2C LCD, other devices present/absent, servo placement before the loop / top of the loop body / split, with and without a main loop, declaration order rotating over 4 orders; same-name re-declarations; outside the quantifier (correspondence only): each kind nested in if/elif/else/while/for/try/except/function/2-deep in setup and in the loop, LCDs in the loop body, servos in the loop body after other statements, declarations after the loop, LCD variable re-bound to the other interface. quick = stratified seeded subsample. distinct non-trivial = distinct IR skeletons for which at least one library is requested or included",
+        "rule": "scripts enumerated exhaustively: multiplicities 0..3 of Servo x parallel LCD x I2C LCD, other devices present/absent, servo placement before the loop / top of the loop body / split, with and without a main loop, declaration order rotating over 4 orders; same-name re-declarations; an LCD variable bound to one and then to the other interface (the witness shapes of the repaired finding F-C14-lcd-rebind, with further LCDs / a Servo around) and every sequence of 2..4 bindings of the variables a, b to parallel / I2C displays that binds some variable again (thorough: all 164; quick: all of length 2, half of length 3, 8 seeded of length 4), constructor spellings, other devices, Servo and main loop rotating - all inside the quantifier, judged by the oracle and compiled; step 0 replays the witnesses of the repaired findings first; outside the quantifier (correspondence only): each kind nested in if/elif/else/while/for/try/except/function/2-deep in setup and in the loop, LCDs in the loop body, servos in the loop body after other statements, declarations after the loop. quick = stratified seeded subsample. distinct non-trivial = distinct IR skeletons for which at least one library is requested or included",
         "samples": [cases[0]["src"], cases[len(cases) // 3]["src"], cases[-1]["src"]],
         "distribution": dict(dist, scripts=len(cases), inside_quantifier=n_in, compiled_and_linked=sum(1 for v in compiled.values() if v["compiled"]),
                              outside_quantifier_guard=dict(nested_seen),
                              outside_quantifier_relation_observed={k: dict(v) for k, v in sorted(observed.items())}),
         "exhaustive": ctx.tier == "thorough",
-        "guard": "property quantifier: LCDs declared before the main loop (top level), servos before it or at the top of its body; plus: no LCD variable bound to both interfaces (outside: F-C14-lcd-rebind). Model guard decls_at_documented_positions (extracted) is evaluated on the real IR of every script and must be true inside the quantifier.",
-        "unmodelled": ["the text of the object definitions beyond class and variable name (constructor arguments)",
+        "guard": "the property's quantifier only: LCDs declared before the main loop (top level), servos before it or at the top of its body. No finding of this property is open: the region F-C14-lcd-rebind used to exclude (an LCD variable bound to both interfaces) is generated and judged. Model guard decls_at_documented_positions (extracted) is evaluated on the real IR of every script and must be true inside the quantifier.",
+        "fixed_findings_replayed": sorted(f["id"] for f in local_findings(ctx) if f.get("kind") == "fixed"),
+        "regressed": sorted(regressed),
+        "unmodelled": ["the text of the object definitions beyond class, variable name and binding index (constructor arguments)",
+                       "which display object the commands after a re-binding address (the emitter switches to the object of the declaration it passes: observed by hand on the mock, not part of this property)",
                        "PlatformIO's library resolution itself (the check stops at the lib_deps section text)",
                        "real Arduino library headers (mock headers: LiquidCrystal_I2C.h includes LiquidCrystal.h and does not need Wire.h, so those two omissions are visible only textually)",
                        "IR shapes the parser cannot produce (LCDDecl.interface other than parallel/i2c; declarations inside global_decls) - flagged as unencodable if they appear"],
         "trusted_base": C.COMMON_TRUSTED + ["harness/impl/c14_impl.py (walks the real Program dataclasses into the model's node encoding; calls parse, _collect_required_libraries, emit, pio._format_lib_section)",
-                                            "harness/props/c14.py regexes INC_RE / OBJ_RE reading #include lines and global object definitions",
+                                            "harness/props/c14.py regexes INC_RE / OBJ_RE / LCD_ID_RE reading #include lines, global object definitions and the binding index in an LCD object identifier",
                                             "g++ -std=gnu++17 and mock/ (Servo.h, LiquidCrystal.h, LiquidCrystal_I2C.h, Wire.h)"],
     })
     ctx.assumptions += ["variable names are distinct per declared device unless a case says otherwise (names are numbered by first occurrence in the IR walk)",
